@@ -126,8 +126,9 @@ fn pending_scenario(name: &str, n: usize, x: usize) -> Scenario {
 		let last_non_r = hist.iter().rev().find(|e| !matches!(e, Ev::Stage(St::R)));
 		match ev {
 			Ev::Stage(St::R) => hist.iter().filter(|e| matches!(e, Ev::Stage(St::R))).count() < 3,
-			Ev::Commit(_) => !matches!(last_non_r, Some(Ev::Commit(_)) | Some(Ev::Stage(St::P)) | Some(Ev::Stage(St::F))),
-			Ev::Stage(St::P) => matches!(last_non_r, Some(Ev::Commit(_))),
+			// two commits may be queued before the first is processed (then both are driven through P, F, E)
+			Ev::Commit(_) => !matches!(last_non_r, Some(Ev::Stage(St::P)) | Some(Ev::Stage(St::F))),
+			Ev::Stage(St::P) => matches!(last_non_r, Some(Ev::Commit(_)) | Some(Ev::Stage(St::P))),
 			Ev::Stage(St::F) => matches!(last_non_r, Some(Ev::Stage(St::P))),
 			Ev::Stage(St::E) => matches!(last_non_r, Some(Ev::Stage(St::F)) | Some(Ev::Stage(St::E))) && hist.iter().rev().take_while(|e| matches!(e, Ev::Stage(St::E) | Ev::Stage(St::R))).filter(|e| matches!(e, Ev::Stage(St::E))).count() < 2,
 			_ => true,
